@@ -7,6 +7,7 @@ import Driver.CollDrv
 import Driver.CdcnDrv
 import Driver.QDrv
 import Driver.FacadeDrv
+import Driver.HeapDrv
 open Lean Drv
 
 def handle (line : String) : String :=
@@ -31,7 +32,9 @@ def handle (line : String) : String :=
     | "qtrace" => qtraceLine j
     | "qctor" => qctorLine j
     | "pipe" => pipeLine j
+    | "stress" => stressLine j
     | "facade" => facadeLine j
+    | "heap" => heapLine j
     | "qmeta" => verdict true true "meta" ""
     | k => verdict false true "bad-kind" k
 
